@@ -270,7 +270,7 @@ def cases(rng, tier, worker, nworkers):
     for i, c in enumerate(grid()):
         if i % nworkers == worker:
             yield fin(c)
-    n_random = 1500 if tier == 'quick' else 32000 // nworkers
+    n_random = 5000 if tier == 'quick' else 96000 // nworkers
     opts_clean = {'small_year': 0.0}
     opts_all = {'small_year': 0.0, 'findings': True, 'inf_bounds': 0.08}
     for i in range(n_random):
